@@ -33,7 +33,7 @@ RULE = ('one case = one content item tree (depth <= 3) of a value type drawn uni
         'copy and from DICOM bytes (explicit and implicit VR), read a second time after the values it handed out were edited in place (built and parsed items, then written again), and parsed in damaged form (required attribute removed, '
         'value type swapped / unknown / missing, wrong class, child relationship removed).  Non-trivial = accepted '
         'tree parsed back with all values compared; distinct by (value type, graphic type, counts, option pattern, '
-        'depth, children types).  Round 2: every argument is passed in a spelling drawn for it (enum member / string, str / UID classes, '
+        'depth, children types).  Round 6: every item with children gets them as list / tuple / pydicom Sequence / ContentSequence / another item\'s content / a query-style result, the caller keeps that container and edits it afterwards (append, extend, insert, delete, replace, reverse, clear); the item must report and write the children it was given.  Round 2: every argument is passed in a spelling drawn for it (enum member / string, str / UID classes, '
         'python / pydicom value objects / DICOM strings, int / numpy / list / tuple / ndarray / scalar vs one-item sequence, omitted / None, two '
         'TCOORD arguments at once); planted in addition: empty sequences, channel items that are not pairs, members of another enumeration, NUM '
         'values of types the constructor does not take (model-only); each accepted tree is parsed through three more (source, entry point, copy '
@@ -1529,7 +1529,11 @@ def check_item(ctx, case, reqs=None, pend=None):
         # ---- oracle 2c: the item OWNS its nested content -- the caller changes the container it assigned (it still holds
         #      it: a list, a pydicom Sequence, a ContentSequence, another item's content) and the item must go on reporting,
         #      and be written with, exactly the children it was given
+        n_fail = len(ctx.failures)
         _ownership(ctx, where, it, d, want, handles)
+        if len(ctx.failures) != n_fail or (d['children'] and 'ContentSequence' in it and
+                                           len(it.ContentSequence) != len(d['children'])):
+            it = build(d)           # the item was changed behind its back: the remaining oracles get a fresh one
         # ---- oracle 3: parse back (in memory / through bytes) = same class, equal name, relationship, value, children
         for how, mk in (('memory/class', lambda: plain_copy(it)), ('memory/sequence', lambda: plain_copy(it)),
                         ('bytes-explicit/sequence', lambda: through_bytes(it, False)),
